@@ -84,3 +84,390 @@ def check_C17media(seed, tier, extra_cases=()):
                 "media_oracle_stats": stats, "media_correspondence_disagreements": len(corr),
                 "media_samples": [{"cls": c["cls"], "op": c["op"][:300], "impl": c["impl"], "model": c["model"]} for c in cases[:2] + cases[-2:]]}
     return ofails + corr, coverage
+
+# =====================================================================================================
+# epoch-hint histories (`vh mediaw` = real MDK instances, `mdkdrv mediaw` = Model.MediaEpoch)
+# =====================================================================================================
+import os, re
+
+NMIMES, NNAMES = 12, 8          # harness/src/mediaw.rs MIMES / NAMES
+SIZES = [0, 1, 15, 16, 17, 1000, 4096, 65535, 65536, 70000, 300000, 1048576]
+TAMPERS = ["ct0", "ct7", "ct{mid}", "ct{last}", "trunc", "extend", "nonce0", "nonce95", "name", "mime", "hash0", "hash255", "version"]
+
+class Hist:
+    """one scripted history: clients 0..n-1 members (0 creates), client n = never a member, optionally one evicted
+    before the files and one added after them; the script is generated up front (event numbers are predicted
+    and checked against the harness output)"""
+    def __init__(self, hid, rng, tier):
+        self.id, self.r, self.ops, self.meta = hid, rng, [], {}
+        self.nev = 0
+        self.files = {}           # f -> dict(enc=c, members=set at encryption, ann_ev, late={m: j}, size, mime)
+        self.gen(tier)
+
+    def op(self, s, **meta):
+        self.ops.append(s); self.meta[len(self.ops) - 1] = meta
+
+    def commit(self, i, what="selfupdate", arg=None):
+        """a commit by member i (must be up to date), merged at once; returns its event number"""
+        self.op(f"{what} {i} {arg + ' ' if arg else ''}-", expect_ev=self.nev)
+        ev = self.nev; self.nev += 1
+        self.op(f"merge {i}")
+        return ev
+
+    def gen(self, tier):
+        r = self.r
+        n = r.choice([2, 3, 3, 4])
+        self.members = list(range(n))
+        self.outsider = n
+        evict = r.random() < 0.3 and n >= 3
+        late_joiner = n + 1 if r.random() < 0.3 else None
+        self.op("world")
+        total = n + 1 + (1 if late_joiner else 0)
+        for i in range(total):
+            self.op(f"client {i} {r.choice(['mem', 'mem', 'sql'])} 5")
+        for i in range(1, n):
+            self.op(f"kp {i}")
+        self.op(f"create 0 0 1 1 {','.join(str(k) for k in range(n - 1))}")
+        for i in range(1, n):
+            self.op(f"welcome {i} {i - 1} 0"); self.op(f"accept {i} {i - 1}")
+        self.queue = {m: [] for m in self.members}       # pending events per member, in delivery order
+        self.evicted = None
+        if evict:
+            self.evicted = n - 1
+            ev = self.commit(0, "remove", str(self.evicted))
+            for m in self.members:
+                if m != 0: self.queue[m].append(ev)
+            self.flush_all()
+            self.members = [m for m in self.members if m != self.evicted]
+        nfiles = r.choice([1, 1, 2, 3])
+        for f in range(1, nfiles + 1):
+            self.one_file(f, tier)
+        self.flush_all()
+        if late_joiner:
+            self.op(f"kp {late_joiner}")
+            kpi = n - 1      # kp indices 0..n-2 were used
+            self.op(f"add 0 {kpi} -", expect_ev=self.nev); ev = self.nev; self.nev += 1
+            self.op("merge 0")
+            self.op(f"welcome {late_joiner} {n - 1} 0"); self.op(f"accept {late_joiner} {n - 1}")
+            for m in self.members:
+                if m != 0: self.queue[m].append(ev)
+            self.flush_all()
+            for f in self.files:
+                self.op(f"decrypt {late_joiner} {f} -", role="joined-later", f=f)
+        # group image through the group data
+        if r.random() < 0.5:
+            self.op(f"setimage 0 {r.choice([300, 3000, 40000])}", expect_ev=self.nev); ev = self.nev; self.nev += 1
+            self.op("merge 0")
+            self.op("getimage 0 -", role="image")
+            for m in self.members:
+                if m != 0:
+                    self.queue[m].append(ev)
+            self.flush_all()
+            for m in self.members:
+                if m != 0:
+                    self.op(f"getimage {m} -", role="image")
+                    self.op(f"getimage {m} ct{r.randrange(2000)}", role="image-tamper")
+        # final probes of every file at everybody
+        for f in self.files:
+            self.probe_all(f, final=True)
+
+    def deliver(self, m, ev):
+        self.op(f"deliver {m} {ev}", **({"ann": self.ann_of[ev]} if ev in getattr(self, "ann_of", {}) else {}))
+        if ev in getattr(self, "ann_of", {}):
+            f = self.ann_of[ev]
+            self.op(f"tag {m} {f}", f=f)
+
+    def flush(self, m, upto=None):
+        q = self.queue[m]
+        while q and (upto is None or q[0] != upto):
+            self.deliver(m, q.pop(0))
+
+    def flush_all(self):
+        for m in list(self.queue):
+            if m in self.members or m == self.evicted:
+                self.flush(m)
+
+    def one_file(self, f, tier):
+        r = self.r
+        if not hasattr(self, "ann_of"): self.ann_of = {}
+        c = r.choice(self.members)
+        self.flush(c)
+        size = r.choice(SIZES if tier != "quick" else SIZES[:10])
+        if size == 0 and getattr(self, "had_empty", False):
+            size = 2 + f          # two files with identical content share their hint (corpus/C17/same_content.hist): not generated
+        self.had_empty = getattr(self, "had_empty", False) or size == 0
+        mime, name = r.randrange(NMIMES), r.randrange(NNAMES)
+        self.op(f"encrypt {c} {f} {size} {mime} {name}", f=f)
+        self.op(f"announce {c} {f}", expect_ev=self.nev, f=f); ann = self.nev; self.nev += 1
+        self.ann_of[ann] = f
+        self.op(f"tag {c} {f}", f=f)
+        k = r.choice([0, 1, 1, 2, 3, 4, 6])
+        late = {m: (0 if r.random() < 0.5 else r.randint(1, max(1, min(k, r.choice([2, 4, 4, 6]))))) if k else 0 for m in self.members if m != c}
+        self.files[f] = {"enc": c, "members": set(self.members), "ann": ann, "late": late, "k": k}
+        # per-member event order: j commits, then the announcement, then the rest
+        pending_ann = {m: late[m] for m in late}
+        for m in late:
+            if pending_ann[m] == 0:
+                self.queue[m].append(ann); pending_ann[m] = None
+        for t in range(1, k + 1):
+            i = r.choice(self.members)
+            self.flush(i)
+            ev = self.commit(i)
+            for m in self.members:
+                if m != i:
+                    self.queue[m].append(ev)
+            for m in late:
+                if pending_ann[m] is not None and pending_ann[m] == t:
+                    self.queue[m].append(ann); pending_ann[m] = None
+            if r.random() < 0.4:
+                m = r.choice(self.members); self.flush(m)
+                self.op(f"decrypt {m} {f} -", role="member", f=f)
+        for m in late:
+            if pending_ann[m] is not None:
+                self.queue[m].append(ann)
+        self.flush_all()
+        self.probe_all(f)
+
+    def probe_all(self, f, final=False):
+        r = self.r
+        info = self.files[f]
+        for m in sorted(info["members"]):
+            self.op(f"decrypt {m} {f} -", role="member", f=f)
+        self.op(f"decrypt {self.outsider} {f} -", role="outsider", f=f)
+        if self.evicted is not None:
+            self.op(f"decrypt {self.evicted} {f} -", role="evicted-before", f=f)
+        if not final:
+            m = info["enc"]
+            for tk in r.sample(TAMPERS, 5):
+                tk = tk.replace("{mid}", str(r.randrange(8, 4000))).replace("{last}", str(10 ** 7 + r.randrange(8)))
+                self.op(f"decrypt {m} {f} {tk}", role="tamper", f=f)
+            others = [g for g in self.files if g != f]
+            if others:
+                self.op(f"decrypt {m} {f} other{r.choice(others)}", role="tamper", f=f)
+
+def gen_images(rng, n):
+    ops = []
+    for _ in range(n):
+        v = rng.choice([1, 2]); size = rng.choice([3, 300, 3000, 40000, 300000])
+        san = rng.choice([0, 1]) if v == 2 else 0
+        ops.append((f"gimage {v} {size} {san} -", "image"))
+        ops.append((f"gimage {v} {size} {san} nohash", "image"))
+        for t in [f"ct{rng.randrange(20000)}", f"ctnohash{rng.randrange(20000)}", "nonce", "key", "hash"]:
+            ops.append((f"gimage {v} {size} {san} {t}", "image-tamper"))
+    return ops
+
+def kvs(s):
+    return dict(x.split("=", 1) for x in s.split() if "=" in x)
+
+def driver_line(op, res, prev_tag):
+    t = op.split()
+    if t[0] == "decrypt" and (res.startswith("ok:") or res.startswith("err:")) and "hint=" in res:
+        k = kvs(res)
+        return f"decrypt hint={k['hint']} K={k['K']} cur={k['cur']} enc={k['enc']} tamper={t[3]}"
+    if t[0] == "gimage":
+        return f"gimage {t[1]} {t[4]}"
+    if t[0] == "getimage" and (res.startswith("ok:") or res.startswith("err:")):
+        return f"gimage 2 {t[2]}"
+    return None
+
+def load_hist_corpus():
+    d = os.path.join(C.VERIF, "corpus", "C17")
+    cases = []
+    if os.path.isdir(d):
+        for fn in sorted(os.listdir(d)):
+            if fn.endswith(".hist"):
+                ops, meta = [], {}
+                for l in open(os.path.join(d, fn)):
+                    l = l.strip()
+                    if l.startswith("#@"):
+                        meta[len(ops)] = dict(x.split("=", 1) for x in l[2:].split())
+                    elif l and not l.startswith("#"):
+                        ops.append(l)
+                cases.append({"id": f"corpus:{fn}", "ops": ops, "meta": {k: ({**v, "f": int(v["f"])} if "f" in v else v) for k, v in meta.items()}, "corpus": True})
+    return cases
+
+def run_hist(cases):
+    """cases: dict(id, ops, meta). Fills impl (result, fingerprint), dline, model."""
+    text = "".join("\n".join(c["ops"]) + "\n" for c in cases)
+    rc, impl, err = C.run_lines([C.VH, "mediaw"], text)
+    total = sum(len(c["ops"]) for c in cases)
+    if len(impl) != total:
+        raise RuntimeError(f"mediaw engine: harness printed {len(impl)} lines for {total} ops (rc={rc})\n{err[-600:]}")
+    i, dl = 0, []
+    for c in cases:
+        c["impl"] = [x.partition(" | ") for x in impl[i:i + len(c["ops"])]]; i += len(c["ops"])
+        c["res"] = [a for a, _, _ in c["impl"]]
+        c["fp"] = [b for _, _, b in c["impl"]]
+        c["dlines"] = []
+        fhash, seen_tag = {}, {}
+        for k, (op, res) in enumerate(zip(c["ops"], c["res"])):
+            d = driver_line(op, res, None)
+            t = op.split()
+            if t[0] == "encrypt" and res.startswith("ok"):
+                fhash[int(t[2])] = kvs(res).get("hash")
+            if t[0] == "tag" and res.startswith("tag=") and k > 0:
+                # the announcement was just processed (deliver) or sent (announce) by this client: its epoch is in the fingerprint
+                prev_op, prev_res, prev_fp = c["ops"][k - 1], c["res"][k - 1], c["fp"][k - 1]
+                m = re.match(r"E(\d+) ", prev_fp)
+                processed = (prev_op.startswith("deliver") and prev_res.startswith("app:")) or (prev_op.startswith("announce") and prev_res.startswith("ev="))
+                key = (int(t[1]), fhash.get(int(t[2])))
+                if m and processed:
+                    d = f"announce epoch={m.group(1)} prior={seen_tag.get(key, '-')}"
+                if res != "tag=-":
+                    seen_tag.setdefault(key, res[4:])
+            c["dlines"].append(d)
+            if d: dl.append(d)
+    rc2, model, err2 = C.run_lines([C.DRV, "mediaw"], "\n".join(dl) + "\n") if dl else (0, [], "")
+    if len(model) != len(dl):
+        raise RuntimeError(f"mediaw engine: driver printed {len(model)} lines for {len(dl)} ops (rc={rc2})\n{err2[-600:]}")
+    j = 0
+    for c in cases:
+        c["model"] = []
+        for d in c["dlines"]:
+            if d is None: c["model"].append(None)
+            else: c["model"].append(model[j]); j += 1
+    return cases
+
+def hist_text(c, upto=None, note=""):
+    s = f"# case {c['id']}\n" + (f"# {note}\n" if note else "")
+    for k, op in enumerate(c["ops"] if upto is None else c["ops"][:upto + 1]):
+        m = c["meta"].get(k)
+        if m:
+            s += "#@ " + " ".join(f"{a}={b}" for a, b in m.items()) + "\n"
+        s += op + "\n"
+    return s
+
+def hist_correspondence(cases, stats):
+    fails = []
+    for c in cases:
+        for k, (op, res, mod) in enumerate(zip(c["ops"], c["res"], c["model"])):
+            if res in ("panic", "bad-op") or res.startswith("err:NoFile"):
+                fails.append({"kind": "corr", "signature": "corr:not-executable", "what": f"{c['id']} step {k} `{op}`: {res}",
+                              "replay_body": hist_text(c, k, "op not executable"), "case": c})
+                break
+            ex = c["meta"].get(k, {}).get("expect_ev")
+            if ex is not None and f"ev={ex}" not in res.split():
+                fails.append({"kind": "corr", "signature": "corr:script", "what": f"{c['id']} step {k} `{op}`: expected ev={ex}, got `{res[:80]}` (the scripted history did not unfold as planned)",
+                              "replay_body": hist_text(c, k, "scripted event number mismatch"), "case": c})
+                break
+            if mod is None:
+                continue
+            stats["lines_compared"] = stats.get("lines_compared", 0) + 1
+            a = res.split()[0]
+            d = c["dlines"][k]
+            if d.startswith("announce") and not d.endswith("prior=-") and a == "tag=" + kvs(d)["epoch"]:
+                continue      # several stored messages carry this content hash: which one the lookup returns is unspecified
+            if a != mod:
+                fails.append({"kind": "corr", "signature": "corr:" + op.split()[0],
+                              "what": f"{c['id']} step {k} `{op}`: impl `{res[:160]}` model `{mod}`",
+                              "replay_body": hist_text(c, k, f"model and implementation disagree at step {k}"), "case": c})
+                break
+    return fails
+
+def hist_oracle(cases):
+    """C17 on the implementation alone: every member of the encrypting epoch gets the original bytes at any later
+    point; nobody else gets bytes; every tamper fails; never different bytes; group image round trip / tamper."""
+    fails = []
+    st = {"member_decrypts": 0, "member_ok": 0, "late_announce_failures": 0, "outsider_probes": 0, "tamper_probes": 0, "image_probes": 0,
+          "announcement_not_processed": 0, "decrypts_by_epoch_distance": {}, "announced_late_by": {}}
+    def fail(c, k, sig, what):
+        fails.append({"kind": "oracle", "signature": sig, "what": f"{c['id']} step {k} `{c['ops'][k]}`: {what}",
+                      "replay_body": hist_text(c, k, what), "case": c})
+    for c in cases:
+        enc_epoch, processed, at_epoch = {}, {}, {}
+        for k, (op, res) in enumerate(zip(c["ops"], c["res"])):
+            t = op.split()
+            meta = c["meta"].get(k, {})
+            if "ok:DIFFERENT" in res:
+                fail(c, k, "media-different-bytes", "decryption returned bytes other than the original"); continue
+            if t[0] == "encrypt":
+                if res.startswith("ok"):
+                    enc_epoch[int(t[2])] = int(kvs(res)["epoch"])
+                else:
+                    fail(c, k, "media-encrypt-refused", f"a valid upload was refused: {res[:100]}")
+            elif t[0] == "tag" and res.startswith("tag=") and res != "tag=-":
+                processed[(int(t[1]), int(t[2]))] = int(res[4:])
+                m = re.match(r"E(\d+) ", c["fp"][k - 1]) if k > 0 else None
+                if m and (int(t[1]), int(t[2])) not in at_epoch:
+                    at_epoch[(int(t[1]), int(t[2]))] = int(m.group(1))      # the client's epoch when it processed / sent the announcement
+            elif t[0] == "decrypt":
+                role, f = meta.get("role"), int(t[2])
+                kv = kvs(res)
+                ok = res.startswith("ok:same")
+                if role == "member":
+                    st["member_decrypts"] += 1
+                    if (int(t[1]), f) not in processed:
+                        st["announcement_not_processed"] += 1
+                        continue
+                    tag = processed[(int(t[1]), f)]
+                    dist = (int(kv["epoch"]) - enc_epoch[f]) if kv.get("epoch", "-") != "-" and f in enc_epoch else -1
+                    st["decrypts_by_epoch_distance"][dist] = st["decrypts_by_epoch_distance"].get(dist, 0) + 1
+                    st["announced_late_by"][tag - enc_epoch[f]] = st["announced_late_by"].get(tag - enc_epoch[f], 0) + 1
+                    if ok:
+                        st["member_ok"] += 1
+                    else:
+                        table = dict(x.split(":") for x in kv["K"].split(",")) if kv.get("K", "-") != "-" else {}
+                        # mechanism of the open finding: the hint is the receiver's epoch at processing time, not the file's
+                        # epoch, while the right secret is still stored under the file's own epoch
+                        late = at_epoch.get((int(t[1]), f)) != enc_epoch[f]
+                        if kv.get("hint", "-") != "-" and int(kv["hint"]) != enc_epoch[f] and not late:
+                            fail(c, k, "hint-points-to-other-message", f"the announcing message was processed in the file's own epoch ({enc_epoch[f]}), yet the hint found for the file's hash is epoch {kv['hint']} (another stored message carries the same content hash): {res[:120]}")
+                        elif kv.get("hint", "-") != "-" and int(kv["hint"]) != enc_epoch[f] and table.get(str(enc_epoch[f])) == kv["enc"]:
+                            st["late_announce_failures"] += 1
+                            fail(c, k, "receiver-epoch-tag", f"a member of the encrypting epoch ({enc_epoch[f]}) cannot decrypt: the announcing message is filed under epoch {kv['hint']} (receiver's epoch at processing time); the secret of epoch {enc_epoch[f]} is still stored: {res[:120]}")
+                        else:
+                            fail(c, k, "media-decrypt-failed", f"a member of the encrypting epoch cannot decrypt although the announcement is filed under the file's epoch: {res[:160]}")
+                elif role in ("outsider", "evicted-before", "joined-later"):
+                    st["outsider_probes"] += 1
+                    if res.startswith("ok:"):
+                        fail(c, k, "media-decrypted-by-non-member", f"a client that was not a member of the encrypting epoch ({role}) obtained the plaintext")
+                elif role == "tamper":
+                    st["tamper_probes"] += 1
+                    if res.startswith("ok:"):
+                        fail(c, k, "media-tamper-accepted", f"a tampered ciphertext / reference decrypted: {res[:100]}")
+            elif t[0] in ("gimage", "getimage"):
+                st["image_probes"] += 1
+                tam = t[4] if t[0] == "gimage" else t[2]
+                good = tam in ("-", "nohash")
+                if good and not res.startswith("ok:same"):
+                    fail(c, k, "group-image-roundtrip", f"group image does not decrypt with the published seed and nonce: {res[:100]}")
+                if not good and res.startswith("ok:"):
+                    fail(c, k, "group-image-tamper-accepted", f"a tampered group image decrypted: {res[:100]}")
+                if t[0] == "gimage" and t[1] == "2" and good and "kp=1 v1kp=1 bh=1 dims=1" not in c["fp"][k]:
+                    fail(c, k, "group-image-upload-data", f"upload keypair / blob hash / dimensions inconsistent: {c['fp'][k][:100]}")
+    return fails, st
+
+def generate_hists(seed, tier):
+    rng = random.Random(seed * 7919 + 17)
+    n = 40 if tier == "quick" else 400
+    cases = []
+    for i in range(n):
+        h = Hist(f"h{seed}-{i}", rng, tier)
+        cases.append({"id": h.id, "ops": h.ops, "meta": h.meta})
+    img = gen_images(rng, 6 if tier == "quick" else 40)
+    cases.append({"id": f"img{seed}", "ops": ["world"] + [o for o, _ in img], "meta": {k + 1: {"role": r} for k, (_, r) in enumerate(img)}})
+    return cases
+
+def replay(path):
+    """./check C17 --replay PATH (a .hist history or a .trace of media_pair lines)"""
+    if path.endswith(".trace") or "media_pair" in open(path).read():
+        f, cov = check_C17media(1, "quick", extra_cases=K.load_traces([path]))
+        for x in f: print(x["kind"].upper(), x["signature"], x["what"][:300])
+        return 1 if f else 0
+    ops, meta = [], {}
+    for l in open(path):
+        l = l.strip()
+        if l.startswith("#@"):
+            meta[len(ops)] = {a: (int(b) if a in ("f", "expect_ev") else b) for a, b in (x.split("=", 1) for x in l[2:].split())}
+        elif l and not l.startswith("#"):
+            ops.append(l)
+    c = {"id": "replay", "ops": ops, "meta": meta}
+    run_hist([c])
+    for op, res, fp, mod in zip(c["ops"], c["res"], c["fp"], c["model"]):
+        print(f"  {op}\n      impl  {res[:200]}" + (f"\n      model {mod}" if mod else ""))
+    corr = hist_correspondence([c], {})
+    of, st = hist_oracle([c])
+    for x in corr: print("CORRESPONDENCE-DIFF:", x["what"][:300])
+    for x in of: print(f"ORACLE-FAIL signature={x['signature']}:", x["what"][:300])
+    if not corr and not of: print("oracle: ok; model and implementation agree")
+    return 1 if (corr or of) else 0
